@@ -1,6 +1,8 @@
 import I2N.Model.Show
 import I2N.Lemmas.Show
 import I2N.Extracted.Show
+import I2N.Extracted.GenShow
+import I2N.Lemmas.GenShow
 /-!
 C17 — A vm state exists exactly when all of the vm's images have it.
 
@@ -220,5 +222,49 @@ theorem vt_show_listings (lss : List (List Line)) (hne : lss ≠ []) (h : ∀ ls
     exact ((on_off_told_apart ls (h ls hls) x).2).mpr (hall ls hls)
 
 example : vtShowDumps ([demoListing, demoListing2].map printListing) = ["boot3.0".toList] := by decide +kernel
+
+/-! ## Translator tie: the combination loops equal the code's current source
+
+`I2N/Extracted/GenShow.lean` is regenerated on every run (harness/pygen_pxindex.py) from the source of
+`QCOW2VTBackend.show` (from `states = None` to its `return`) and of the combination part of `RamfileBackend._show`
+(from `images_states = None` to the `None → set()` fallback).  `images` = `params.objects("images")`,
+`imageStates i` = what the per-image backend lists for image `i`.  No hypotheses: any number of images (none
+included), any listings. -/
+
+open I2N.Extracted.GenShow
+
+/-- the loop of `QCOW2VTBackend.show` — the `None` start, the first-image case `list(image_states)`, the filter
+`[state for state in states if state in image_states]`, the `None → []` fallback — is the model's `vtShow` of the
+per-image listings. -/
+theorem vtShow_matches_source (images : List Name) (imageStates : Name → List Name) :
+    genVtShow images imageStates = vtShow (images.map imageStates) := by
+  unfold genVtShow vtShow
+  simp only [Id.run, pure, List.foldl_map, List.map_id']
+  rw [foldl_congr_fun (g2 := fun acc x => vtStep acc (imageStates x)) (fun b a => by cases b <;> rfl)]
+  cases List.foldl (fun acc x => vtStep acc (imageStates x)) none images <;> rfl
+
+/-- the combination loop of `RamfileBackend._show` — `set(image_snapshots)` for the first image, `.intersection` for
+the others, `None → set()` for a vm without images — leaves the model's `ramImagesStates` in `images_states` (never
+`None`; a set is a list of which only membership is observed). -/
+theorem ramImagesStates_matches_source (images : List Name) (imageStates : Name → List Name) :
+    genRamImagesStates images imageStates = some (ramImagesStates (images.map imageStates)) := by
+  unfold genRamImagesStates ramImagesStates
+  simp only [Id.run, pure, List.foldl_map]
+  rw [foldl_congr_fun (g2 := fun acc x => ramStep acc (imageStates x)) (fun b a => by cases b <;> rfl)]
+  cases List.foldl (fun acc x => ramStep acc (imageStates x)) none images <;> rfl
+
+/-- hence the SOURCE lists the intersection: a state is returned by `QCOW2VTBackend.show` (generated) exactly when
+every image of the vm has it (`show_is_intersection` transported). -/
+theorem source_show_is_intersection (images : List Name) (imageStates : Name → List Name) (h : images ≠ []) (x : Name) :
+    x ∈ genVtShow images imageStates ↔ ∀ i ∈ images, x ∈ imageStates i := by
+  rw [vtShow_matches_source, show_is_intersection _ (by simpa using h)]
+  simp
+
+example : genVtShow ["image1".toList, "image2".toList]
+    (fun i => if i == "image1".toList then ["a".toList, "b".toList] else ["b".toList, "c".toList]) = ["b".toList] := by decide
+/-- the first image lists nothing: nothing is listed (what the pre-fix loop got wrong) -/
+example : genVtShow ["image1".toList, "image2".toList] (fun i => if i == "image1".toList then [] else ["a".toList]) = [] := by
+  decide
+example : genRamImagesStates [] (fun _ => ["a".toList]) = some [] := by decide
 
 end I2N.Props.C17
